@@ -241,6 +241,8 @@ fn run_check(root: &str, pid: &str, tier: Tier, seed: u64, only: Option<String>)
     v.sort();
     files.extend(v);
   }
+  files.sort();
+  files.dedup();
   for f in files {
     match replay_report(&ctx, &f) {
       Ok((_, rep)) => {
